@@ -243,6 +243,7 @@ fn apply_real(bin: &Path, dir: &Path, sc: &Scenario, op: &Op) -> Option<RealRun>
         Op::RmCache => { let _ = fs::remove_dir_all(dir.join(CACHE_DIR)); None },
         Op::RmTable => { let _ = fs::remove_file(dir.join(TABLE_FILE)); None },
         Op::Rules { k } => { write_file(dir, RULES_FILE, render_rules(&sc.variants[*k]).as_bytes()); None },
+        Op::Backdate { .. } => None,
         Op::Build { goal } =>
         {
             let mut args = vec!["build"];
@@ -640,6 +641,21 @@ fn serve_menu(port: u16, fs_model: &Fs, extra_valid: &[String], requests: &mut u
             {
                 *okays += 1;
                 if refsha::cache_name(&r.body) != *name { bad.push(("served bytes do not hash to the requested name".into(), name.clone())); }
+            }
+        }
+    }
+    // extra path segments after a cached hash: not a file name, 404
+    for (name, data) in cache.iter().filter(|(n, _)| n.len() == 43).take(3)
+    {
+        for tail in ["/x", "/", "/..", "/../../current_file_states", "/../../../secret.txt", "/%2e%2e/%2e%2e/current_file_states", &format!("/{}", name)]
+        {
+            let path = format!("/files/{}{}", name, tail);
+            if let Some(r) = get(&path, &mut bad)
+            {
+                if r.status != 404 && tail != "/"
+                {
+                    bad.push(("a path with extra segments after a cached hash does not give 404".into(), format!("GET {} -> {} ({} bytes{})", path, r.status, r.body.len(), if r.body == **data { ", the cached file" } else { "" })));
+                }
             }
         }
     }
